@@ -97,6 +97,9 @@ trait FbDyn {
     fn get(&self, p: Point) -> Option<u32>;
     /// pixel map left by drawing `as_image()` at the origin on `R1`
     fn image_map(&self) -> PMap;
+    /// pixel map left by drawing the part of `as_image()` from (1,1) to the bottom right corner, in place
+    /// (`Image::new(&as_image().sub_image(&area), (1,1))`), on `R1`
+    fn sub_image_map(&self) -> PMap;
     /// `as_image()` equals the `ImageRaw` of the same colour type and order over `data()[0..BUFFER_SIZE]`
     fn image_is_raw_over_prefix(&self, buffer_size: usize) -> bool;
     fn dims(&self) -> (u32, u32);
@@ -134,6 +137,14 @@ macro_rules! fb_body {
             let mut r = R1::<C>::unbounded();
             let raw = self.as_image();
             Image::new(&raw, Point::zero()).draw(&mut r).unwrap();
+            r.rec.map
+        }
+        fn sub_image_map(&self) -> PMap {
+            let mut r = R1::<C>::unbounded();
+            let raw = self.as_image();
+            let size = self.size();
+            let area = Rectangle::new(Point::new(1, 1), Size::new(size.width.saturating_sub(1), size.height.saturating_sub(1)));
+            Image::new(&raw.sub_image(&area), Point::new(1, 1)).draw(&mut r).unwrap();
             r.rec.map
         }
         fn image_is_raw_over_prefix(&self, buffer_size: usize) -> bool {
@@ -793,6 +804,14 @@ impl Module for M {
             }
         }
         ctx.expect(img == want_img, "as-image-draw", || format!("{} drawn {} want {}", op, fmt_map(&img), fmt_map(&want_img)));
+        // ... and so does drawing a part of it in place (rows and columns from 1 on: the row padding of
+        // sub-byte depths is skipped between the rows of the part; seeded change C10-r2-3)
+        let sub = fb.sub_image_map();
+        let want_sub: PMap = want_img.iter().filter(|((y, x), _)| *y >= 1 && *x >= 1).map(|(k, v)| (*k, *v)).collect();
+        if !want_sub.is_empty() {
+            ctx.count("as-image:part-drawn");
+        }
+        ctx.expect(sub == want_sub, "as-image-part-draw", || format!("{} drawn {} want {}", op, fmt_map(&sub), fmt_map(&want_sub)));
 
         let mut grid = Vec::new();
         for y in -1..=hi {
@@ -803,6 +822,6 @@ impl Module for M {
                 });
             }
         }
-        format!("d={} p={} img={}", fmt_list(fb.bytes().iter()), grid.join(","), fmt_map(&img))
+        format!("d={} p={} img={} sub={}", fmt_list(fb.bytes().iter()), grid.join(","), fmt_map(&img), fmt_map(&sub))
     }
 }
